@@ -303,9 +303,17 @@ class SpyPathIO(aioftp.MemoryPathIO):
     latency = 0  # virtual ms every backend call takes (0: the call never suspends, like MemoryPathIO; > 0: like AsyncPathIO)
     lat_ops = None  # None = every call, else the set of call names that take `latency`
     close_done = []  # loop time at which each close() had completed
+    fail_kind = 0  # index into FAIL_KINDS: what the failing backend call raises
+    FAIL_KINDS = [
+        lambda: OSError(5, "injected backend failure"),
+        lambda: TimeoutError("injected backend timeout"),  # what OSError(ETIMEDOUT) builds; asyncio.TimeoutError on 3.11+
+        lambda: ValueError("injected backend failure"),
+        lambda: FileNotFoundError(2, "injected backend failure"),
+        lambda: RuntimeError("injected backend failure"),
+    ]
 
     @classmethod
-    def reset(cls, fail_at=None, fail_repeat=False, latency=0, lat_ops=None):
+    def reset(cls, fail_at=None, fail_repeat=False, latency=0, lat_ops=None, fail_kind=0):
         cls.calls = 0
         cls.paths = []
         cls.opened = []
@@ -316,6 +324,7 @@ class SpyPathIO(aioftp.MemoryPathIO):
         cls.latency = latency
         cls.lat_ops = lat_ops
         cls.close_done = []
+        cls.fail_kind = fail_kind
 
     @classmethod
     async def _lat(cls, name):
@@ -330,7 +339,7 @@ class SpyPathIO(aioftp.MemoryPathIO):
             cls.paths.append(path)
         if cls.fail_at is not None:
             if cls.calls == cls.fail_at or (cls.fail_repeat and cls.calls > cls.fail_at):
-                raise OSError(5, "injected backend failure")
+                raise cls.FAIL_KINDS[cls.fail_kind]()
 
     @classmethod
     def open_files(cls):
@@ -432,7 +441,7 @@ class _SpyLister(com.AsyncListerMixin):
     async def __anext__(self):
         try:
             SpyPathIO._tick("list_next")
-        except OSError as e:
+        except Exception as e:  # noqa: BLE001  as the real listers' universal_exception wrapper does
             raise aioftp.PathIOError(reason=sys.exc_info()) from e
         return await self.inner.__anext__()
 
